@@ -6,7 +6,7 @@ Property theorems only. Model: CV.Store.* (the code as it is); specification: CV
 spec operation; `resOf` maps its answer.
 -/
 import CV.Proofs.StoreKV
-import CV.Proofs.StoreLock
+import CV.Proofs.StoreSorted
 namespace CV.Store
 open CV
 
@@ -27,6 +27,27 @@ theorem kv_refines (s : State) (idx : Nat) (c : Cmd) (op : KvOp) (h : kvOpOf c =
   · exact refines_deleteTree s idx _ (hp _ rfl)
   · exact refines_lock s idx _
   · exact refines_unlock s idx _
+
+/-- KV writes INSIDE transactions: a write verb of `txnDispatch` succeeds exactly when the direct command
+    reports ok / true and then leaves the working copy in exactly the state the direct command
+    produces (so `kv_refines` applies to it verbatim); when it fails, the direct command changes
+    nothing either. Read / check verbs never write. -/
+theorem kv_txn_verb_is_direct_command (s : State) (idx : Nat) (v : KvVerb) (e : KV) (c : Cmd)
+    (h : cmdOfVerb v e = some c) :
+    (∀ s' rs, txnKV s idx v e = .ok (s', rs) →
+        s' = (apply s idx c).1 ∧ ((apply s idx c).2 = .ok ∨ (apply s idx c).2 = .bool true)) ∧
+    (∀ er, txnKV s idx v e = .error er →
+        (apply s idx c).1 = s ∧ ((apply s idx c).2 = .err er ∨ (apply s idx c).2 = .bool false)) :=
+  txnKV_same_as_direct s idx v e c h
+
+theorem kv_txn_read_verbs_pure (s s' : State) (idx : Nat) (v : KvVerb) (e : KV) (rs : List TxnRes)
+    (h : cmdOfVerb v e = none) (hr : txnKV s idx v e = .ok (s', rs)) : s' = s :=
+  txnKV_reads_pure s s' idx v e rs h hr
+
+/-- In every reachable state the KV table is strictly sorted by key (bytewise, the order of memdb's
+    primary index): keys are unique, and `list` / dumps show the map in key order. -/
+theorem kv_sorted_reachable (log : Log) : KvSorted (replay State.empty log) :=
+  kvSorted_replay _ log kvSorted_empty
 
 /-- get returns exactly the map's content (and the table index). -/
 theorem kv_get_refines (s : State) (k : Key) (hk : k ≠ []) :
@@ -75,6 +96,27 @@ theorem create_index_stable (s : State) (idx : Nat) (c : Cmd) (op : KvOp) (h : k
   kv_cmd_rel CreateKeep (fun _ _ _ _ hx hy => by rw [hx] at hy; cases hy; rfl)
     (fun _ _ _ _ _ _ hr => createKeep_set hr) (fun _ _ _ _ hr => createKeep_del hr) createKeep_tree
     s idx c op h k x y hx hy
+
+/-- … and for every command outside the KV verbs (session create / destroy, register, deregister of a
+    node / service / check, reap, prepared queries) as well as for every non-KV operation inside a
+    transaction: each row afterwards is a row from before with the same key, create index, value, flags
+    and lock counter (such commands only release or delete rows). -/
+theorem create_index_stable_nonkv (s : State) (idx : Nat) (c : Cmd) (hc : c.isPlainNonKv = true) :
+    ∀ e' ∈ (apply s idx c).1.kvs, ∃ e ∈ s.kvs,
+      e'.key = e.key ∧ e'.create = e.create ∧ e'.val = e.val ∧ e'.flags = e.flags ∧ e'.lockIdx = e.lockIdx := by
+  intro e' he'
+  obtain ⟨e, he, hfrom⟩ := kc_apply (kvRel_closed idx s) c hc (kvRel_refl idx s) e' he'
+  refine ⟨e, he, ?_⟩
+  rcases hfrom with rfl | ⟨-, rfl⟩ <;> simp
+
+theorem create_index_stable_txn_op (s s' : State) (idx : Nat) (op : TxnOp) (rs : List TxnRes)
+    (hop : ∀ v e, op ≠ .kv v e) (hr : txnStep s idx op = .ok (s', rs)) :
+    ∀ e' ∈ s'.kvs, ∃ e ∈ s.kvs,
+      e'.key = e.key ∧ e'.create = e.create ∧ e'.val = e.val ∧ e'.flags = e.flags ∧ e'.lockIdx = e.lockIdx := by
+  intro e' he'
+  obtain ⟨e, he, hfrom⟩ := kc_txnStep (kvRel_closed idx s) hop hr (kvRel_refl idx s) e' he'
+  refine ⟨e, he, ?_⟩
+  rcases hfrom with rfl | ⟨-, rfl⟩ <;> simp
 
 /-- Lock counter, fresh acquisition: when the key is unlocked (or absent) a successful lock stores
     the old counter plus one (1 for a new key) and records the session as holder. -/
@@ -196,6 +238,10 @@ def demo : State :=
     [(1, .register ⟨⟨"n1", "", "10.0.0.1", 0, 0⟩, none, []⟩),
      (2, .sessionCreate ⟨"aaaaaaaa-0000-0000-0000-000000000001", "n1", "", "release", [], 0⟩),
      (3, .kvLock ⟨[97], "=v", 0, "aaaaaaaa-0000-0000-0000-000000000001", 0, 0, 0⟩)]
+
+/- (test, `#guard`) the demo state holds key "a" locked with counter 1; a second lock by the same session keeps it -/
+#guard demo.kvs.map (fun e => (e.key, e.lockIdx, e.session)) == [([97], 1, "aaaaaaaa-0000-0000-0000-000000000001")]
+#guard (apply demo 4 (.kvLock ⟨[97], "=v", 0, "aaaaaaaa-0000-0000-0000-000000000001", 0, 0, 0⟩)).2 == .bool true
 
 /-- the hypotheses of the refinement / history theorems are satisfiable by non-trivial logs -/
 example : KvLog [(4, .kvSet ⟨[97], "=w", 1, "", 0, 0, 0⟩), (5, .kvDeleteTree [97]), (6, .kvDeleteCas [98] 3)] := by
